@@ -231,7 +231,8 @@ def r3_selection(ctx):
         names_ret = [ast.unparse(e) for e in cret[0].elts] if len(cret) == 1 else []
 
         def role(pred):
-            hit = [k_ for k_, nm in enumerate(names_ret) if any(
+            # an element of the result is a local (any of its definitions counts) or the expression itself
+            hit = [k_ for k_, (nm, e_) in enumerate(zip(names_ret, cret[0].elts)) if (not isinstance(e_, ast.Name) and pred(e_)) or any(
                 isinstance(n, ast.Assign) and isinstance(n.targets[0], ast.Name) and n.targets[0].id == nm and pred(n.value)
                 for n in walk_no_nested(cgf.node))]
             return hit[0] if len(hit) == 1 else None
@@ -408,12 +409,18 @@ def r5_capability(ctx):
               'candidates are not first kept on a positive minimum-gain margin', f'{s2}')
     L1 = s2[0][0] if s2 else None
     merged = [v for _, v in defs.get(L1, []) if isinstance(v, ast.BinOp) and isinstance(v.op, ast.Add)] if L1 else []
-    lists = set()
-    for c in ctors:
+    # each of the two constructor comprehensions feeds exactly one operand of the merge (through a local or written in place)
+    def feeds(c, operand):
+        if any(x is c for x in ast.walk(operand)):
+            return True
         st_ = stmt_of(f, c)
-        if isinstance(st_, ast.Assign) and isinstance(st_.targets[0], ast.Name):
-            lists.add(st_.targets[0].id)
-    ok = len(merged) == 1 and {ast.unparse(merged[0].left), ast.unparse(merged[0].right)} == lists and len(lists) == 2
+        return isinstance(operand, ast.Name) and isinstance(st_, ast.Assign) and isinstance(st_.targets[0], ast.Name) and \
+            st_.targets[0].id == operand.id
+    ok = len(merged) == 1 and len(ctors) == 2
+    if ok:
+        ops_ = [merged[0].left, merged[0].right]
+        hit = [[k_ for k_, o in enumerate(ops_) if feeds(c, o)] for c in ctors]
+        ok = all(len(h) == 1 for h in hit) and {h[0] for h in hit} == {0, 1}
     ctx.check('R5.capability', f'{site(f)} merge', ok, key(f, 'filter|merge'), 'the candidates are not the EDFA list plus the Raman list')
     # gain fall-back keeps EDFAs only, and raises when there is none
     alt = [ast.unparse(v) for _, v in defs.get(L2, []) if isinstance(v, ast.Name)] if L2 else []
